@@ -224,7 +224,7 @@ prop("C05", ready=True, level="other",
          "CacheChange::as_data_frag_submessage yields fragment_starting_num = index+1, the exact byte slice "
          "[k*f, min((k+1)*f, L)), data_size L, fragment_size f - the fragments tile the payload. (2) NACK_FRAG contract, reader side: a "
          "partially received missing sample is requested with NACK_FRAG(writerSN, exactly the missing fragment numbers, 1-based, count > 0 "
-         "and strictly increasing over rounds), cut correctly against the ACKNACK set. (3) NACK_FRAG contract, writer side: stale counts "
+         "= above the writer's initial last-received count), cut correctly against the ACKNACK set. (3) NACK_FRAG contract, writer side: stale counts "
          "are ignored; every datagram emitted is INFO_DST+INFO_TS+DATA_FRAG of the requested sample with correct geometry and exactly the "
          "bytes of its own fragment number, and the set of fragment numbers resent is exactly the numbers the NACK_FRAG names (base "
          "included) that exist in the sample - duplicates allowed. Two genuine defects were found by these checks and repaired in /repo "
